@@ -99,21 +99,30 @@ type vScriptEv struct {
 
 // vScript kinds:
 //
-//	0 mesh:    every round, every validator references its own last event and the others' last events of the previous round
-//	1 chain:   self-parent plus the latest event of the next validator only (slow convergence)
-//	2 lagging: like mesh, but the last validator creates an event only every third round
-//	3 fork:    like mesh, and the last validator forks once: two events on the same self-parent, shown to different peers
-//	4 lcg:     pseudo-random parents from a fixed linear congruential sequence
-//	5 triple:  like mesh, and the last validator starts with THREE first events x, y, z; x is received first but never
-//	           referenced, the others build on y and z (a fork whose lowest branch is not in any Atropos' ancestry)
-//	6 lagheavy: like mesh, but the FIRST (heaviest) validator creates an event only every third round
-//	7 lateheavy: the first validator creates an event only every seed-th round, AFTER the others of that round
-//	           and on top of their newest events: it can overtake them and become the first root of two
-//	           consecutive frames with one event (an Atropos elected twice, the second block being empty)
-//	8 twice:   a fixed 22-event DAG over 4 validators found by random search (tools/fs_repeat_search_test.go.txt):
-//	           with equal weights event 9 is the first validator's root in frames 2 and 3 and is elected Atropos
-//	           of both, so the third block has nothing new to deliver
+//		0 mesh:    every round, every validator references its own last event and the others' last events of the previous round
+//		1 chain:   self-parent plus the latest event of the next validator only (slow convergence)
+//		2 lagging: like mesh, but the last validator creates an event only every third round
+//		3 fork:    like mesh, and the last validator forks once: two events on the same self-parent, shown to different peers
+//		4 lcg:     pseudo-random parents from a fixed linear congruential sequence
+//		5 triple:  like mesh, and the last validator starts with THREE first events x, y, z; x is received first but never
+//		           referenced, the others build on y and z (a fork whose lowest branch is not in any Atropos' ancestry)
+//		6 lagheavy: like mesh, but the FIRST (heaviest) validator creates an event only every third round
+//		7 lateheavy: the first validator creates an event only every seed-th round, AFTER the others of that round
+//		           and on top of their newest events: it can overtake them and become the first root of two
+//		           consecutive frames with one event (an Atropos elected twice, the second block being empty)
+//		8 twice:   a fixed 22-event DAG over 4 validators found by random search (tools/fs_repeat_search_test.go.txt):
+//		           with equal weights event 9 is the first validator's root in frames 2 and 3 and is elected Atropos
+//		           of both, so the third block has nothing new to deliver
+//	 9 cascade: a fixed 19-event DAG over 4 validators found by random search: with weights 3,3,2,2 the last event
+//	            is a root of several frames at once; one of its earlier frame slots decides frame 1 and frame 2 is
+//	            decided in the cascade that follows (re-processing of the known roots)
 func vScript(kind, V, rounds int, seed uint32) []vScriptEv {
+	if kind == 9 {
+		return []vScriptEv{{1, -1, nil}, {2, -1, []int{0}}, {3, -1, []int{0}}, {3, 2, []int{0, 1}}, {1, 0, []int{3}},
+			{0, -1, []int{4, 1, 3}}, {2, 1, []int{5}}, {3, 3, []int{5, 4, 6}}, {0, 5, []int{4, 6, 7}}, {2, 6, []int{8, 4, 7}},
+			{3, 7, []int{8, 4, 9}}, {0, 8, []int{4, 9, 10}}, {3, 10, []int{11, 4, 9}}, {1, 4, []int{11, 9, 12}},
+			{3, 12, []int{11}}, {1, 13, []int{11, 9, 14}}, {1, 15, []int{11, 9}}, {0, 11, []int{16, 9, 14}}, {2, 9, []int{17, 14}}}
+	}
 	if kind == 8 {
 		return []vScriptEv{{0, -1, nil}, {1, -1, []int{0}}, {2, -1, []int{0, 1}}, {0, 0, []int{1, 2}}, {1, 1, []int{3, 2}},
 			{2, 2, []int{3, 4}}, {3, -1, []int{3, 4, 5}}, {3, 6, []int{3, 5}}, {2, 5, []int{4, 7}}, {0, 3, []int{4, 8, 7}},
